@@ -241,6 +241,10 @@ def run_case(pid, p, rng, res, spec, tier):
             named = any(l in str(out.exc) for l, _ in lo)
             if lo and not named:
                 viol(res, pid, year, 'typeerror-does-not-name-line', f'{lo[0][0]} TypeError message {str(out.exc)[:100]!r}', p, 'base', spec)
+            elif lo:
+                # the framework did its part (rejected, naming the line); the *shipped* definition is what
+                # answered with a type other than the one its line declares, on a valid return
+                viol(res, pid, year, f'shipped-definition-wrong-type|{key_line(lo[0][0] + " ")}', f'{lo[0][0]}: the shipped definition answered with another type than the line declares and the return cannot be solved: {str(out.exc)[:120]}', p, 'base', spec)
     elif pid == 'C13':
         res.count('prompts_checked', len(tv.prompts))
         for s, m in oracles.c13(out, tv):
